@@ -435,7 +435,7 @@ func driveNonce(c *ctx) {
 		drbg(x, e, 1+i%6, false)
 	}
 	// one LONG run of one generator instance (round 10): a read counter narrower than int wraps after 2^8 reads
-	drbg(add(randBig(rng, add(bigN, -1)), 1), randBig(rng, bigN), c.scale(520, 2100), false)
+	drbg(add(randBig(rng, add(bigN, -1)), 1), randBig(rng, bigN), c.scale(520, 1100), false)
 	// the repository's RFC 6979 vector file re-driven: (key 1, message) pairs
 	if f, err := os.Open(filepath.Join(c.repo, "secec", "testdata", "secp256k1_rfc6979_sha256.csv")); err == nil {
 		sc := bufio.NewScanner(f)
